@@ -198,64 +198,10 @@ Proof.
   fold (hex_encode l). rewrite IHl by auto. f_equal. f_equal. lia.
 Qed.
 
-(* ---------- DER pieces ---------------------------------------------------------------------------------------- *)
-Lemma int_content_ok : forall n,
-  int_minimal (int_content n) = true /\ int_negative (int_content n) = false /\ of_be (int_content n) = n.
-Proof.
-  intros n. unfold int_content. destruct (Bytes n) as [|b0 t] eqn:E.
-  - apply Bytes_nil in E. subst. repeat split.
-  - destruct (Bytes_head _ _ _ E) as [Hnz Hlt].
-    assert (V : of_be (b0 :: t) = n) by (rewrite <- E; apply of_be_Bytes).
-    destruct (128 <=? b0) eqn:G.
-    + repeat split.
-      * simpl. assert ((b0 <? 128) = false) as -> by (apply N.ltb_ge; apply N.leb_le; auto). reflexivity.
-      * rewrite of_be_cons0. auto.
-    + apply N.leb_gt in G. repeat split; auto.
-      * simpl. destruct t; auto.
-        assert ((b0 =? 0) = false) as -> by (apply N.eqb_neq; auto).
-        assert ((b0 =? 255) = false) as -> by (apply N.eqb_neq; lia). reflexivity.
-      * unfold int_negative. simpl. apply N.leb_gt. auto.
-Qed.
-
 Lemma firstn_app_exact : forall A (a b : list A), firstn (length a) (a ++ b) = a.
 Proof. intros. rewrite firstn_app, Nat.sub_diag, firstn_all. simpl. apply app_nil_r. Qed.
 Lemma skipn_app_exact : forall A (a b : list A), skipn (length a) (a ++ b) = b.
 Proof. intros. rewrite skipn_app, Nat.sub_diag, skipn_all. reflexivity. Qed.
-
-Lemma read_tlv_tlv : forall tag c rest, read_tlv tag (tlv tag c ++ rest) = Some (c, rest).
-Proof.
-  intros tag c rest. unfold tlv, der_len.
-  destruct (length c <? 128)%nat eqn:E.
-  - apply Nat.ltb_lt in E. cbn [app read_tlv]. rewrite N.eqb_refl. cbn [negb].
-    assert ((N.of_nat (length c) <? 128) = true) as -> by (apply N.ltb_lt; lia).
-    rewrite Nat2N.id.
-    assert ((length (c ++ rest) <? length c)%nat = false) as -> by (apply Nat.ltb_ge; rewrite app_length; lia).
-    rewrite firstn_app_exact, skipn_app_exact. reflexivity.
-  - apply Nat.ltb_ge in E. set (lb := Bytes (N.of_nat (length c))).
-    assert (V : of_be lb = N.of_nat (length c)) by apply of_be_Bytes.
-    assert (Hne : lb <> []).
-    { intro K. unfold lb in K. apply Bytes_nil in K. lia. }
-    cbn [app read_tlv]. rewrite N.eqb_refl. cbn [negb].
-    assert ((N.of_nat (128 + length lb) <? 128) = false) as -> by (apply N.ltb_ge; lia).
-    replace (N.to_nat (N.of_nat (128 + length lb) - 128)) with (length lb) by lia.
-    assert ((length lb =? 0)%nat = false) as -> by (apply Nat.eqb_neq; destruct lb; simpl; [congruence|lia]).
-    rewrite <- app_assoc.
-    assert ((length (lb ++ c ++ rest) <? length lb)%nat = false) as -> by (apply Nat.ltb_ge; rewrite app_length; lia).
-    cbn [orb]. rewrite firstn_app_exact, skipn_app_exact. rewrite V.
-    destruct lb as [|b0 t] eqn:EL; [congruence|].
-    destruct (Bytes_head _ _ _ EL) as [Hnz _]. cbn [hd].
-    assert ((b0 =? 0) = false) as -> by (apply N.eqb_neq; auto).
-    assert ((N.of_nat (length c) <? 128) = false) as -> by (apply N.ltb_ge; lia).
-    cbn [orb]. rewrite Nat2N.id.
-    assert ((length (c ++ rest) <? length c)%nat = false) as -> by (apply Nat.ltb_ge; rewrite app_length; lia).
-    rewrite firstn_app_exact, skipn_app_exact. reflexivity.
-Qed.
-
-Lemma read_int_der_int : forall n rest, read_int (der_int n ++ rest) = Some (inr n, rest).
-Proof.
-  intros. unfold read_int, der_int. rewrite read_tlv_tlv.
-  destruct (int_content_ok n) as (A & B & C). rewrite A, B, C. reflexivity.
-Qed.
 
 (* ---------- modular exponentiation ---------------------------------------------------------------------------- *)
 Lemma pow_mod_pos_spec : forall a e m, m <> 0 -> pow_mod_pos a e m = (a ^ Npos e) mod m.
